@@ -47,7 +47,7 @@ def native_replay(binary, harness, v, params, path):
         return False, "timeout"
     out = p.stdout + p.stderr
     if v["kind"] == "panic":
-        if p.returncode == 101 or "panicked at" in out:
+        if p.returncode == 101 or "panicked at" in out or "has overflowed its stack" in out:
             from .interp import panic_class
             return True, out[-600:]
         return False, out[-600:]
